@@ -10,7 +10,7 @@ CONSTANTS
   Tails <- TailsNone
   MinCors = 0
   MaxCors = 0
-  Tokens = {"ROWLP", "RP", "COMMA", "ARG", "ONE", "DQ", "LT", "SETCALL", "LB", "BIG", "EQ", "F"}
+  Tokens = {"ROWLP", "RP", "COMMA", "ARG", "DQ", "LT", "SETCALL", "LB", "BIG", "STOREB", "ONE"}
   MinToks = 1
   MaxToks = 4
   Nests <- NestsAll
